@@ -431,6 +431,12 @@ def c13_apply(op, spec, cfg, rnd):
         live = [i for i, v in enumerate(s["variants"]) if not v.get("cfg_off")]
         j = rnd.choice(live)
         v = s["variants"][j]
+        if rnd.random() < 0.3:
+            # another key whose value happens to be the variant's own name
+            nm = v["rename"] if v.get("rename") is not None else v["ident"]
+            label, raw = rnd.choice([("other_key_own_name", "#[enum_tools(other = %s)]" % E.rust_str_lit(nm)),
+                                     ("alias_own_name", "#[enum_tools(alias = %s)]" % E.rust_str_lit(nm)),
+                                     ("name_key_own_ident", "#[enum_tools(name = %s)]" % E.rust_str_lit(v["ident"]))])
         v.setdefault("attrs", [])
         if rnd.random() < 0.5:
             v["attrs"].append(raw)
